@@ -14,7 +14,7 @@ func init() {
 		ID:    "C19",
 		Title: "Blocklisted addresses and passive mode are honoured on every path",
 		Decided: "C19.1 one socket-write site, on Server.socket, dominated by closed=false ∧ blocklist-miss on the destination (same node whose Raw() is written to), both evaluated under Server.mu; socket stored only in NewServer and used only as a method receiver; " +
-			"C19.2 one socket-read site; processPacket has one caller, dominated by blocklist-miss on the address just read; handleQuery is reached only from processPacket; " +
+			"C19.2 one socket-read site; processPacket has one caller, dominated by blocklist-miss on the address just read; handleQuery is reached only from processPacket; the list the gate reads is one field, SetIPBlockList stores its argument into it, IPBlocklist() returns it and NewServer seeds it from the configuration; " +
 			"C19.3 the lookup filter's true class implies blocklist-miss and it is installed at every traversal.Start in library code; " +
 			"C19.4 passive=false dominates every reply/error; query messages are built only by the one constructor that sets ro under passive, and the sender's bytes come from it; " +
 			"C19.5 ipBlockList is accessed only under Server.mu.",
